@@ -22,9 +22,49 @@ def self_recv(fn, env, te, f):
         return None
 
 
+class _Continue(Exception):
+    pass
+
+
+class _Break(Exception):
+    pass
+
+
+class Raised(Exception):
+    def __init__(self, kind):
+        super().__init__(kind)
+        self.kind = kind
+
+
 class _Ret(Exception):
     def __init__(self, v):
         self.v = v
+
+
+class EnumMember:
+    """a member of one of the repository's Enum classes (identity comparisons, .value)"""
+    _pool = {}
+
+    def __new__(cls, key, name, value):
+        k = (key, name)
+        if k not in cls._pool:
+            o = object.__new__(cls)
+            o.key, o.name, o.value = key, name, value
+            cls._pool[k] = o
+        o = cls._pool[k]
+        o.value = value
+        return o
+
+    def __repr__(self):
+        return f'{self.key.split(":")[-1]}.{self.name}'
+
+
+def enum_member(prog, modname, cls, name):
+    from .model import const_value
+    ci = prog.need_class(modname, cls)
+    if name not in ci.class_assigns:
+        raise Unknown(f'{cls}.{name} is not a member')
+    return EnumMember(ci.key, name, const_value(ci.class_assigns[name]))
 
 
 class TensorEval:
@@ -35,9 +75,15 @@ class TensorEval:
         self.seeds = seeds            # normalised text -> value (object ndarray / Q / number)
         self.depth = 0
         self.summaries = {}           # function name -> callable(args, kwargs): trusted summary of a helper
+        self.numeric = False          # True: allocation functions give numeric arrays (comparison-only code interpreted on small concrete inputs)
 
     def run(self, f, bind):
         env = dict(bind)
+        a_ = f.node.args
+        pos = a_.posonlyargs + a_.args
+        for p_, d_ in list(zip(pos[len(pos) - len(a_.defaults):], a_.defaults)) + [(p_, d_) for p_, d_ in zip(a_.kwonlyargs, a_.kw_defaults) if d_ is not None]:
+            if p_.arg not in env:
+                env[p_.arg] = self.ev(f, d_, {})
         try:
             self.block(f, f.node.body, env)
         except _Ret as r:
@@ -64,8 +110,21 @@ class TensorEval:
                     raise Unknown(f'loop over `{norm(st.iter)[:40]}`')
                 for x in it:
                     self.bind_target(st.target, x, env)
-                    self.block(f, st.body, env)
+                    try:
+                        self.block(f, st.body, env)
+                    except _Continue:
+                        continue
+                    except _Break:
+                        break
                 continue
+            if isinstance(st, ast.Continue):
+                raise _Continue()
+            if isinstance(st, ast.Break):
+                raise _Break()
+            if isinstance(st, ast.Pass):
+                continue
+            if isinstance(st, ast.Raise):
+                raise Raised(norm(st.exc.func) if isinstance(st.exc, ast.Call) else (norm(st.exc) if st.exc is not None else 're-raise'))
             if isinstance(st, ast.Assign) and len(st.targets) > 1 and all(isinstance(t_, ast.Name) for t_ in st.targets):
                 v = self.ev(f, st.value, env)
                 for t_ in st.targets:
@@ -99,11 +158,16 @@ class TensorEval:
             if isinstance(st, ast.While) and not st.orelse:
                 for _ in range(2000):
                     c = self.ev(f, st.test, env)
-                    if not (isinstance(c, (bool, int)) or (np is not None and isinstance(c, np.bool_))):
+                    if not (isinstance(c, (bool, int)) or (np is not None and isinstance(c, (np.bool_, np.integer)))):
                         raise Unknown('loop condition on a symbolic value')
                     if not c:
                         break
-                    self.block(f, st.body, env)
+                    try:
+                        self.block(f, st.body, env)
+                    except _Continue:
+                        continue
+                    except _Break:
+                        break
                 else:
                     raise Unknown('loop bound')
                 continue
@@ -115,7 +179,7 @@ class TensorEval:
                     c = self.ev(f, st.test, env)
                 except Unknown:
                     continue            # warnings / logging about degenerate inputs (tests on symbolic cells)
-                if isinstance(c, (bool, int)) or (np is not None and isinstance(c, np.bool_)):
+                if isinstance(c, (bool, int)) or c is None or (np is not None and isinstance(c, (np.bool_, np.integer))):
                     self.block(f, st.body if c else st.orelse, env)
                 continue
             if isinstance(st, ast.AugAssign) and isinstance(st.target, ast.Subscript):
@@ -152,7 +216,10 @@ class TensorEval:
                     return np.frompyfunc(lambda q: q ** r, 1, 1)(l)
                 return l ** (int(r) if isinstance(r, float) and r == int(r) else r)
             raise Unknown('power')
-        if isinstance(op, (ast.FloorDiv, ast.Mod)) and isinstance(l, int) and isinstance(r, int) and r != 0:
+        if isinstance(op, (ast.BitAnd, ast.BitOr, ast.BitXor)):
+            import operator
+            return {ast.BitAnd: operator.and_, ast.BitOr: operator.or_, ast.BitXor: operator.xor}[type(op)](l, r)
+        if isinstance(op, (ast.FloorDiv, ast.Mod)) and isinstance(l, (int, np.integer)) and isinstance(r, (int, np.integer)) and r != 0:
             return l // r if isinstance(op, ast.FloorDiv) else l % r
         if isinstance(op, ast.MatMult):
             return np.matmul(l, r) if False else (_ for _ in ()).throw(Unknown('matrix product'))
@@ -165,8 +232,10 @@ class TensorEval:
             g = lambda x: None if x is None else self.ev(f, x, env)      # noqa: E731
             return slice(g(sl.lower), g(sl.upper), g(sl.step))
         v = self.ev(f, sl, env)
-        if v is None or v is Ellipsis or isinstance(v, int):
+        if v is None or v is Ellipsis or isinstance(v, (int, np.integer)):
             return v
+        if isinstance(v, (tuple, list)) and all(isinstance(x, (slice, int, np.integer)) or x is None or x is Ellipsis for x in v) and any(isinstance(x, slice) for x in v):
+            return tuple(v)
         if isinstance(v, (list, range, tuple)) and all(isinstance(x, int) for x in v):
             return list(v)
         if np is not None and isinstance(v, np.ndarray) and v.dtype != object:
@@ -218,8 +287,16 @@ class TensorEval:
             import operator
             l, r = self.ev(f, e.left, env), self.ev(f, e.comparators[0], env)
             ops = {ast.Eq: operator.eq, ast.NotEq: operator.ne, ast.Lt: operator.lt, ast.LtE: operator.le, ast.Gt: operator.gt, ast.GtE: operator.ge}
-            if type(e.ops[0]) in ops and isinstance(l, (int, float)) and isinstance(r, (int, float)):
+            num = (int, float, np.integer, np.floating, np.bool_)
+            if type(e.ops[0]) in ops and isinstance(l, num) and isinstance(r, num):
+                return bool(ops[type(e.ops[0])](l, r))
+            if type(e.ops[0]) in ops and (isinstance(l, np.ndarray) or isinstance(r, np.ndarray)) and all(not isinstance(x, np.ndarray) or x.dtype != object for x in (l, r)) \
+                    and all(isinstance(x, (np.ndarray,) + num) for x in (l, r)):
                 return ops[type(e.ops[0])](l, r)
+            if isinstance(e.ops[0], (ast.Is, ast.IsNot)) and isinstance(l, str) and isinstance(r, str):
+                return (l == r) if isinstance(e.ops[0], ast.Is) else (l != r)
+            if isinstance(e.ops[0], (ast.Is, ast.IsNot, ast.Eq, ast.NotEq)) and isinstance(l, EnumMember) and isinstance(r, EnumMember):
+                return (l is r) if isinstance(e.ops[0], (ast.Is, ast.Eq)) else (l is not r)
             if isinstance(e.ops[0], (ast.Is, ast.IsNot)) and (l is None or r is None):
                 same = l is r
                 return same if isinstance(e.ops[0], ast.Is) else not same
@@ -227,20 +304,44 @@ class TensorEval:
                 return (l == r) if isinstance(e.ops[0], ast.Eq) else (l != r)
             raise Unknown('comparison of symbolic values')
         if isinstance(e, ast.BoolOp):
-            vals = [self.ev(f, v_, env) for v_ in e.values]
-            if all(isinstance(v_, (bool, int)) or v_ is None for v_ in vals):
-                return all(vals) if isinstance(e.op, ast.And) else any(vals)
-            raise Unknown('boolean of symbolic values')
+            res = None
+            for v_ in e.values:                      # short circuit, like Python
+                res = self.ev(f, v_, env)
+                if not (isinstance(res, (bool, int, np.bool_, np.integer)) or res is None):
+                    raise Unknown('boolean of symbolic values')
+                if isinstance(e.op, ast.And) and not res:
+                    return res
+                if isinstance(e.op, ast.Or) and res:
+                    return res
+            return res
         if isinstance(e, ast.UnaryOp) and isinstance(e.op, ast.Not):
             v_ = self.ev(f, e.operand, env)
-            if isinstance(v_, (bool, int)) or v_ is None:
+            if isinstance(v_, (bool, int, np.bool_, np.integer)) or v_ is None:
                 return not v_
             raise Unknown('negation of a symbolic value')
         if isinstance(e, ast.IfExp):
             c_ = self.ev(f, e.test, env)
-            if isinstance(c_, (bool, int)) or c_ is None:
+            if isinstance(c_, (bool, int, np.bool_, np.integer)) or c_ is None:
                 return self.ev(f, e.body if c_ else e.orelse, env)
             raise Unknown('conditional on a symbolic value')
+        if isinstance(e, ast.Attribute) and isinstance(e.value, ast.Name) and e.value.id in ('_np', 'np', 'numpy') and e.value.id not in env:
+            if e.attr in ('inf', 'nan', 'pi', 'newaxis', 'int32', 'int64', 'uint8', 'uint32', 'float32', 'float64', 'bool_', 'r_', 'integer'):
+                return getattr(np, e.attr)
+        if isinstance(e, ast.UnaryOp) and isinstance(e.op, ast.Invert):
+            v_ = self.ev(f, e.operand, env)
+            if isinstance(v_, np.ndarray) and v_.dtype == bool:
+                return ~v_
+            raise Unknown('bit inversion')
+        if isinstance(e, ast.Attribute) and isinstance(e.value, ast.Name) and e.value.id not in env and e.attr.isupper():
+            r_ = self.prog.resolve(f.mod, e.value)
+            if r_ is not None and r_[0] == 'class' and any('Enum' in b for b in r_[1].ext_bases) and e.attr in r_[1].class_assigns:
+                from .model import const_value
+                return EnumMember(r_[1].key, e.attr, const_value(r_[1].class_assigns[e.attr]))
+        if isinstance(e, ast.Attribute) and e.attr == 'value':
+            b_ = self.ev(f, e.value, env)
+            if isinstance(b_, EnumMember):
+                return b_.value
+            raise Unknown(f'attribute {t[:40]}')
         if isinstance(e, ast.Attribute):
             if e.attr == 'T':
                 return self.ev(f, e.value, env).T
@@ -253,6 +354,9 @@ class TensorEval:
             if e.attr in ('dtype', 'itemsize'):
                 return None             # dtypes carry no value information here (the promotion rules own them)
             raise Unknown(f'attribute {t[:40]}')
+        if isinstance(e, ast.Subscript) and norm(e.value).endswith('.r_'):
+            elts = e.slice.elts if isinstance(e.slice, ast.Tuple) else [e.slice]
+            return np.r_[tuple(self.ev(f, x, env) for x in elts)]
         if isinstance(e, ast.Subscript):
             v = self.ev(f, e.value, env)
             i = self.index(f, e.slice, env)
@@ -295,8 +399,10 @@ class TensorEval:
         if name in self.summaries and (isinstance(fn, ast.Name) or (isinstance(fn, ast.Attribute) and isinstance(fn.value, ast.Name) and fn.value.id not in env)):
             return self.summaries[name]([self.ev(f, a, env) for a in e.args], kw)
         args = [self.ev(f, a, env) for a in e.args]
-        if isinstance(fn, ast.Name) and fn.id == 'range' and all(isinstance(a, int) for a in args):
-            return range(*args)
+        if isinstance(fn, ast.Name) and fn.id == 'slice' and fn.id not in env and all(a is None or isinstance(a, (int, np.integer)) for a in args) and 1 <= len(args) <= 3:
+            return slice(*[None if a is None else int(a) for a in args])
+        if isinstance(fn, ast.Name) and fn.id == 'range' and all(isinstance(a, (int, np.integer)) for a in args):
+            return range(*[int(a) for a in args])
         if isinstance(fn, ast.Name) and fn.id == 'len' and len(args) == 1:
             return len(args[0])
         if isinstance(fn, ast.Name) and fn.id == 'enumerate' and len(args) == 1 and isinstance(args[0], (range, list, tuple)):
@@ -335,6 +441,17 @@ class TensorEval:
             out = np.empty(args[0], dtype=object)
             out[...] = Q.sym('UNINITIALISED')
             return out
+        if self.numeric and np_call and name in ('zeros', 'ones', 'empty') and args:
+            dt = (dtype_txt or 'float64').strip('\'"').split('.')[-1]
+            dt = {'bool_': bool, 'bool': bool}.get(dt, dt if dt in ('int32', 'int64', 'uint8', 'uint32', 'float32', 'float64', 'int') else 'float64')
+            return getattr(np, 'zeros' if name == 'empty' else name)(args[0], dtype=dt)
+        if np_call and name in ('where', 'nonzero', 'flatnonzero', 'bitwise_and', 'bitwise_or', 'logical_and', 'logical_or', 'logical_not', 'vstack', 'hstack', 'tile', 'take',
+                                'argsort', 'sort', 'unique', 'isin', 'any', 'all', 'count_nonzero', 'abs', 'absolute', 'sign', 'minimum', 'maximum', 'clip', 'repeat', 'column_stack') and args \
+                and all(not isinstance(a, np.ndarray) or a.dtype != object or name in ('take', 'vstack', 'hstack', 'tile', 'repeat', 'column_stack') for a in args):
+            kw2 = {k: v for k, v in kw.items() if k in ('axis', 'mode')}
+            return getattr(np, name)(*args, **kw2)
+        if isinstance(fn, ast.Name) and fn.id in ('abs', 'int', 'min', 'max', 'bool') and args and all(isinstance(a, (int, float, np.integer, np.floating, np.bool_)) for a in args):
+            return {'abs': abs, 'int': int, 'min': min, 'max': max, 'bool': bool}[fn.id](*args)
         if np_call and name in ('zeros', 'ones') and args:
             if dtype_txt is not None and dtype_txt.strip('\'"').split('.')[-1] in ('int', 'int64', 'int32', 'intp'):
                 return getattr(np, name)(args[0], dtype=int)
@@ -372,6 +489,10 @@ class TensorEval:
                 return a0.copy()
             if name == 'squeeze':
                 return a0.squeeze()
+            if name == 'reshape' and rest:
+                return a0.reshape(rest[0] if len(rest) == 1 else tuple(rest))
+            if name in ('flatten', 'ravel') and not rest:
+                return a0.reshape(-1)
             if name in ('multiply', 'divide', 'true_divide', 'subtract', 'add') and len(args) == 2:
                 return {'multiply': lambda x, y: x * y, 'divide': lambda x, y: x / y, 'true_divide': lambda x, y: x / y, 'subtract': lambda x, y: x - y, 'add': lambda x, y: x + y}[name](args[0], args[1])
             if name == 'where' and len(args) == 3:
